@@ -35,9 +35,10 @@ IDX5 = {'q11': (0, 0), 'q12': (0, 1), 'q22': (1, 1), 'q16': (0, 2), 'q26': (1, 2
 def gen_prop(rng, n=None):
     n = n or rng.choice([3, 6, 6, 6, 9])
     e1 = rng.choice([142.5e9, 70e9, 1.0, rng.uniform(1, 200)])
-    e2 = e1 if n == 3 else rng.choice([8.7e9, e1, rng.uniform(0.5, 1) * e1])
+    e2 = e1 if n == 3 else rng.choice([e1 * 8.7 / 142.5, e1, rng.uniform(0.05, 1) * e1])
     nu12 = rng.choice([0.28, 0.3, 0.0, rng.uniform(-0.2, 0.45)])
     g = [rng.uniform(0.01, 0.5) * e1 for _ in range(3)]
+    assert 1 - nu12 * nu12 * e2 / e1 > 0.5
     if n == 3:
         return (e1, e2, nu12)
     if n == 6:
